@@ -355,16 +355,14 @@ Proof.
   - (* Wait blocks only on an existing job that is unfinished or whose notifier is still pending *)
     destruct (is_idle c s); [|exact W]. destruct (id_lookup (s_ids s) i) as [ser|]; [|exact W].
     destruct (getjob (s_jobs s) ser) as [j|] eqn:Ej; [|exact W].
-    destruct (j_done j && negb (done_pending ser (s_hub s))) eqn:ED.
+    destruct (j_done j) eqn:ED.
     + destruct (j_drop j && id_is (s_ids s) (j_id j) ser); cbn [fst]; [|exact W].
       eapply wl_same; [| | |exact W]; reflexivity.
     + cbn [fst]. unfold WL. sf. intros c0 w Hst. destruct (N.eq_dec c c0) as [Ec|Ec].
       * subst c0.
         pose proof (get_put_same (s_conns s) (mkConn c (BWait ser) (c_run (get_conn (s_conns s) c)))) as G.
         cbn [c_id] in G. rewrite G in Hst. cbn [c_st] in Hst. inversion Hst; subst w.
-        split; [congruence|]. unfold is_done. rewrite Ej.
-        apply andb_false_iff in ED. destruct ED as [ED|ED]; [left; exact ED|right].
-        apply negb_false_iff in ED. apply done_pending_In. exact ED.
+        split; [congruence|]. unfold is_done. rewrite Ej. left; exact ED.
       * rewrite get_put_other in Hst by (cbn [c_id]; exact Ec). exact (W c0 w Hst).
   - exact W.
   - destruct (id_lookup (s_ids s) i) as [ser|]; [|exact W]. cbn [fst]. unfold WL. sf.
@@ -654,7 +652,7 @@ Proof.
   - destruct (is_idle c' s) eqn:EI; [|reflexivity]. pose proof (idle_other _ _ _ _ EI Hst) as Ec.
     destruct (id_lookup (s_ids s) i) as [x|]; [|reflexivity].
     destruct (getjob (s_jobs s) x) as [j|]; [|reflexivity].
-    destruct (j_done j && negb (done_pending x (s_hub s))).
+    destruct (j_done j).
     + destruct (j_drop j && id_is (s_ids s) (j_id j) x); reflexivity.
     + cbn [fst]. sf. apply get_put_other. cbn [c_id]. exact Ec.
   - reflexivity.
@@ -797,13 +795,17 @@ Example live_died :
   c_st (get_conn (s_conns (fst (step s3 RunLoop))) 1) = Dead /\ snd (step s3 RunLoop) = [ODied 1].
 Proof. vm_compute. repeat split; reflexivity. Qed.
 
-(* a client that starts waiting while the notifier is still pending blocks too (gevent: "already notifying"),
-   and the same hub turn releases both *)
+(* a client that starts waiting on the finished job while the notifier of the earlier waiter is still pending gets the
+   job at once (a8ac510: no wait on the event of a finished job - in gevent that wait could lose its wake-up); the hub
+   turn then releases the earlier waiter *)
 Example live_late_waiter :
-  let s4 := run (live_h ++ [live_fin; Wait 3 (JAuto 1)]) init in
-  c_st (get_conn (s_conns s4) 3) = BWait 1 /\ done_pending 1 (s_hub s4) = true /\
-  exists j, snd (step s4 RunLoop) = [OReleased 1 j; OReleased 3 j] /\ j_done j = true.
-Proof. vm_compute. repeat (split; [reflexivity|]). eexists. split; reflexivity. Qed.
+  let s3 := run (live_h ++ [live_fin]) init in
+  done_pending 1 (s_hub s3) = true /\
+  (exists j, snd (step s3 (Wait 3 (JAuto 1))) = [OReleased 3 j] /\ j_done j = true) /\
+  let s4 := fst (step s3 (Wait 3 (JAuto 1))) in
+  c_st (get_conn (s_conns s4) 3) = Idle /\
+  exists j, snd (step s4 RunLoop) = [OReleased 1 j] /\ j_done j = true.
+Proof. vm_compute. split; [reflexivity|]. split; [eexists; split; reflexivity|]. split; [reflexivity|]. eexists. split; reflexivity. Qed.
 
 (* the hypotheses of the general lemmas hold on the example *)
 Example live_lemmas_apply :
